@@ -47,6 +47,12 @@ def oracle(s, r):
         if not (np.all(np.isfinite(S)) and np.all(np.isfinite(B))):
             viols.append(("nonfinite:" + strat, "%s produced non-finite values" % nm, {}))
             continue
+        if nm + "_linx" in r:
+            ld = ol.lin_deviation(S, r[nm + "_linx"], r[nm + "_liny"], B, r[nm + "_linf"])
+            stats["worst_linearity"] = max(stats.get("worst_linearity", 0.0), ld)
+            if not ld <= ol.LIN_TOL * max(1.0, cond * ol.EPS * 1e6):
+                viols.append(("nonlinear:" + strat, "%s applied to generic (iterate, right-hand side) pairs of size O(1), 1e-20, 1e18 differs from "
+                              "S x + B f by %.3g: the sweep is not affine (value-dependent shortcut?)" % (nm, ld), {"variant": nm}))
         # (a) coarse nodes: bit-for-bit unchanged
         mism = int(r[nm + "_coarse_bit_mismatch"][0, 0])
         stats["bit_checked"] = stats.get("bit_checked", 0) + int(r[nm + "_coarse_bit_checked"][0, 0])
